@@ -1,12 +1,13 @@
 #!/bin/bash
-# tools/try_seeded.sh <seeded id> <check> [<check>...]: apply a seeded patch to /repo, run checks (quick), undo
+# tools/try_seeded.sh <seeded id> <check>[:tier] ...: apply a seeded patch to a SCRATCH worktree of /repo's HEAD
+# (never to /repo itself), run the checks against it (YVM_REPO), clean up
 id=$1; shift
-test -z "$(git -C /repo status --porcelain --untracked-files=no)" || { echo "repo dirty"; exit 2; }
+S=$(/verif/tools/scratch.sh)
 P=/verif/seeded/$id/patch.diff; test -f /verif/seeded/$id/patch_rebased.diff && P=/verif/seeded/$id/patch_rebased.diff
-git -C /repo apply $P || { echo "$id: patch does not apply"; git -C /repo reset -q --hard HEAD; exit 2; }
+git -C $S apply $P || { echo "$id: patch does not apply"; exit 2; }
 for c in "$@"; do
   tier=quick; case $c in *:*) tier=${c#*:}; c=${c%:*};; esac
-  out=$(cd /verif && /venv/bin/python -m yvm $c --tier $tier 2>&1); rc=$?
+  out=$(cd /verif && YVM_REPO=$S /venv/bin/python -m yvm $c --tier $tier 2>&1); rc=$?
   echo "$id $c($tier) exit=$rc | $(echo "$out" | grep -E '^(VIOLATION|INCONCLUSIVE|KNOWN)' | head -3 | cut -c1-160 | tr '\n' '|')"
 done
-git -C /repo checkout -- . ; git -C /repo reset -q
+git -C $S reset -q --hard
